@@ -13,13 +13,14 @@ from typing import Dict, List, Optional, Sequence, Tuple
 VALUES = ["1", "abc", "{x}", '"x"', "{a{b}c}", '"a{b}c"', '{a"b}', "{a,b=c}", '"a,b=c"', "{a\nb}", 'x # "y"',
           "{a} # {b}", '"a" # b', "{a\\}b}", '"a \\" b"', "{a@b}", "{}", '""', "{ a }", "2001", "{\\'e}", "ab # cd # {e}",
           '"a {b} {c{d}} e"', "{% x}", "{a\r\nb}", "{rows end with \\\\} in LaTeX}", '"q \\\\" q"', "{open \\\\{ only}",
-          '"a {"} b"', "{a \\\\ b}", '" x "', '"pad "', "{\tt}", '" "']
+          '"a {"} b"', "{a \\\\ b}", '" x "', '"pad "', "{\tt}", '" "',
+          "{007}", "01", '"0012"', "{٢٠٢٠}", "000", "{12}"]      # digit strings are text: leading zeros and non-ASCII digits are kept
 WS = ["", " ", "\n", "\r\n", "\t", "  ", " \n "]
 GAPS = ["", "% comment", "free text = , \" } {", "a\\@b", "x\ny", "#"]
 ETYPES = ["article", "Book", "commentary", "stringent", "x1", "INPROCEEDINGS", "preambles", "é",
           "Straße", "ΛΌΓΟΣ", "ſtring", "ǅx"]      # lower() differs from casefold() / is not ASCII-only
 # (an entry type holding U+0130 lower-cases to i + U+0307, which is no word character: see C05 known finding; only fixed witnesses use it)
-FKEYS = ["title", "Author", "year", "a", "A", "f-1", "x.y", "note"]
+FKEYS = ["title", "Author", "year", "a", "A", "f-1", "x.y", "note", "volume", "number", "month", "pages"]
 ATSP = ["", " ", "\t"]
 
 
